@@ -3,6 +3,7 @@ package c16
 import (
 	"fmt"
 	"go/token"
+	"sort"
 	"strings"
 
 	"verifharness/internal/core"
@@ -31,6 +32,10 @@ func tparams(t *Type) string {
 }
 
 func writeTypeSpec(b *strings.Builder, in *Input, t *Type, indent string) {
+	if t.Over != "" {
+		fmt.Fprintf(b, "%s%s %s\n", indent, t.Name, t.Over)
+		return
+	}
 	switch t.Kind {
 	case "struct":
 		fmt.Fprintf(b, "%s%s%s struct {\n", indent, t.Name, tparams(t))
@@ -77,10 +82,24 @@ func source(in *Input) string {
 			}
 		}
 	}
-	for _, imp := range []string{"sync", "unicode"} {
-		if imports[imp] {
-			fmt.Fprintf(&b, "import %q\n\n", imp)
+	paths := map[string]bool{}
+	for imp := range imports {
+		paths[imp] = true
+	}
+	for i := range in.Types {
+		if in.Types[i].Over != "" {
+			if path, _ := overImport(in.Types[i].Over); path != "" {
+				paths[path] = true
+			}
 		}
+	}
+	var sorted []string
+	for p := range paths {
+		sorted = append(sorted, p)
+	}
+	sort.Strings(sorted)
+	for _, imp := range sorted {
+		fmt.Fprintf(&b, "import %q\n\n", imp)
 	}
 	if in.Broken {
 		defer b.WriteString("\nfunc (\n")
